@@ -1,5 +1,7 @@
 /- Helper lemmas for the model of the solver text interfaces (`SPModel.Text`). -/
 import SPModel.Text
+import SPProofs.Text.Opb
+import SPProofs.Text.Parse
 
 namespace SPModel.Text
 
